@@ -28,7 +28,7 @@ ARGS = {
     "wordwrap": ["(3)", "(2, true, s)", "(3, false, s2)"], "xmlattr": ["", "(false)"], "random": [""],
 }
 SKIP = {"safe", "tojson"}      # explicit safe marking; tojson emits JSON quotes by documentation (covered by C24)
-SUBJECTS = ["s", "s2", "L", "D", "m", "n", "LL", "url", "u", "O"]
+SUBJECTS = ["s", "s2", "L", "D", "m", "n", "LL", "url", "u", "O", "(s|e)", "fr"]
 
 
 def programs(rnd, filters, tier):
@@ -61,7 +61,9 @@ def programs(rnd, filters, tier):
         a1, a2 = rnd.choice(ARGS.get(f1, [""])), rnd.choice(ARGS.get(f2, [""]))
         add("{{ " + f"{rnd.choice(SUBJECTS)}|{f1}{a1}|{f2}{a2}" + " }}", tag=f"{f1}|{f2}")
     # operators, string methods, format strings
-    ops = ["s + s2", "s ~ s2", "m ~ s", "s ~ m", "m + s", "s + m", "s * 2", "m * 2", "s % s2", "'%s' % s", "m % s", "'%s'|format(s)",
+    ops = ["['<b>\\'\"']", "{'k': '<v>\"'}", "('<a>',)", "'<b>'|list", "'a<b'|batch(2)|list", "['<c>'] if true", "[['<d>']]", "{'<k>': 1}",
+           "fr|striptags", "(s|e)|striptags", "(s ~ m)|striptags", "mm2(s)|striptags", "fr|striptags|safe is string and fr",
+           "s + s2", "s ~ s2", "m ~ s", "s ~ m", "m + s", "s + m", "s * 2", "m * 2", "s % s2", "'%s' % s", "m % s", "'%s'|format(s)",
            "s.upper()", "s.replace('<', s2)", "s.format()", "'{}'.format(s)", "'{0}{x}'.format(s, x=s2)", "m.format(s)", "s.join(L)",
            "m.join(L)", "s.center(9)", "s.split('&')", "s.strip('<')", "s[1:]", "s[0]", "L[0]", "D[s] if s in D else s", "(s, s2)",
            "[s, m]", "{'k': s}", "s if u else s2", "s2 if s else u", "s and s2", "u or s", "s|e|e", "s|string|e", "L|map('e')|join(s)",
@@ -71,6 +73,10 @@ def programs(rnd, filters, tier):
         add("{{ " + o + " }}", tag="op")
         add("{% set v %}{{ " + o + " }}{% endset %}{{ v }}|{{ v|upper if v is string else v }}", tag="op/setblock")
         add("{% macro mm(a, b=s) %}{{ a }}{{ b }}{{ caller() if caller else '' }}{% endmacro %}{{ mm(" + o + ") }}{% call mm(s2) %}{{ " + o + " }}{% endcall %}", tag="op/macro")
+    for i, p in enumerate(progs):
+        # `fr` is a fragment that became safe by escaping (a set block), mm2 a macro returning escaped data
+        if "fr" in p["src"] or "mm2" in p["src"]:
+            p["src"] = "{% set fr %}{{ s }}{% endset %}{% macro mm2(a) %}{{ a }}{% endmacro %}" + p["src"]
     add("{% for k, v in D|items %}{{ k }}={{ v }};{% endfor %}{% for k in D %}{{ k }}{{ D[k] }}{% endfor %}", tag="items")
     add("{{ loopdata }}{% for x in L %}{{ loop.previtem }}{{ loop.nextitem }}{{ loop.cycle(s, s2) }}{{ loop.changed(x) }}{% endfor %}", tag="loop")
     add("{% with a=s, b=s2 %}{{ a }}{{ b }}{% endwith %}{% autoescape true %}{{ s }}{% endautoescape %}", tag="with")
